@@ -191,7 +191,7 @@ theorem C02_desc (ps : List Sel) (name : Sel) (h0 : countAmp name = 0)
 
 /-- **C02_comb**: a descendant space that would precede a written combinator is dropped — the child's
     leading `>`, `+` or `~` replaces the space. -/
-theorem C02_comb (a r : Sel) (e : Tok) (he : hasQ e = true) (ha : NoTrail a) :
+theorem C02_comb (a r : Sel) (e : Tok) (he : isEncLike e = true) (ha : NoTrail a) :
     pairwiseFilter (a ++ " " :: e :: r) = pairwiseFilter (a ++ e :: r) := by
   induction a with
   | nil => simp [pairwiseFilter, he]
